@@ -10,7 +10,7 @@
    / gen_get_hash (EventLoopThreadPool.cc, symbolically executed). *)
 From Coq Require Import List Bool Arith ZArith Lia.
 Import ListNotations.
-From Muduo Require Import C04_Model C04_Proofs C05_Model C05_Proofs C05_PoolProofs C05_EltProofs Gen_C04 Gen_C05 C05_GenRun C05_GenLink.
+From Muduo Require Import C04_Model C04_Proofs C05_Model C05_Proofs C05_Termination C05_PoolProofs C05_EltProofs C05_PoolSysModel C05_PoolSysProofs Gen_C04 Gen_C05 C05_GenRun C05_GenLink.
 
 (* ------------------------------------------------------------ the tie to the source (Gen = Model) *)
 (* EventLoop::quit() wakes the loop when called from another thread *)
@@ -72,6 +72,21 @@ Theorem C05_loop_thread_progress : forall sh scr s, active (pc s) = true ->
   exists lab s', (lab = TLoop \/ lab = TRead) /\ step sh scr s lab = Some s'.
 Proof. exact loop_thread_progress. Qed.
 Print Assumptions C05_loop_thread_progress.
+
+(* BOUNDED TERMINATION.  User code terminates = there is a finite cost assignment for the functor /
+   callback scripts (wr t: task t run by the drain, where what it queues is not run in this
+   iteration -- a task may re-queue itself; wh t: script t run from an I/O or timer callback, where
+   what it queues is run by this iteration's drain; inline runInLoop() chains must be finite).  Then,
+   from any state with quit_ set and the loop thread inside the while loop (in poll: something ready,
+   which C05_quit_ends_loop guarantees once the foreign wake-up is written), for every shape:
+   every run of the loop thread inside the loop has at most M s steps, and the loop thread reaches
+   the exit of the while loop on its own -- "loop() returns once the current iteration is finished" *)
+Theorem C05_quit_returns_bounded : forall sh scr wr wh, costs_ok scr wr wh -> forall s,
+  quit (sg s) = true -> active (pc s) = true -> (pc s = LPoll -> poll_ready (sg s) = true) ->
+  (forall n s', lrun sh scr n s s' -> n <= M wr wh s) /\
+  (exists n s', lrun sh scr n s s' /\ pc s' = LExit /\ fcode s' = fcode s).
+Proof. exact quit_returns_bounded. Qed.
+Print Assumptions C05_quit_returns_bounded.
 
 (* loop() leaves its while loop / returns only after quit() was called *)
 Theorem C05_returns_only_after_quit : forall sh scr prefix later progs s,
@@ -275,12 +290,76 @@ Theorem C05_empty_pool_base : forall ops next, hashes_ok ops ->
 Proof. exact gen_empty_pool_base. Qed.
 Print Assumptions C05_empty_pool_base.
 
+(* ------------------------------------------------------------ the pool as a system of N threads *)
+(* C05_PoolSysModel: start() = N sequential startLoop()s, user code, ~EventLoopThreadPool = N sequential
+   ~EventLoopThread()s, the N children running freely; `preach` = every schedule of the N+1 threads.
+   Every thread of a reachable pool state is in a reachable EventLoopThread state: all theorems above
+   (handshake, destructor, lifetime) hold of every thread of a pool *)
+Theorem C05_pool_threads_are_threads : forall es sh scr specs p, preach es sh scr (pinit specs) p ->
+  length p = length specs /\
+  forall i e, nth_error p i = Some e ->
+    exists spec, nth_error specs i = Some spec /\ ereach es sh scr (einit (fst spec) (snd spec)) e.
+Proof. exact preach_components. Qed.
+Print Assumptions C05_pool_threads_are_threads.
+
+(* when start() has returned, loops_ holds N non-null loops, loop i published by -- and running on --
+   child i (N distinct components), alive as long as nobody has quit it; and start() never dead-locks *)
+Theorem C05_pool_start : forall es sh scr specs p,
+  preach es sh scr (pinit specs) p -> tf_clears es = true -> sl_while es = true ->
+  length p = length specs /\
+  forall i e, nth_error p i = Some e -> o_past_start e = true ->
+    got e = Some true /\ c_published (ec e) = true /\
+    (quit_called (log (sg (ls e))) = false -> alive e = true).
+Proof. exact pool_start_result. Qed.
+Print Assumptions C05_pool_start.
+
+Theorem C05_pool_start_progress : forall es sh scr specs p,
+  (forall t, qfree_acts (scr t) = true) -> specs_qfree specs ->
+  preach es sh scr (pinit specs) p -> tf_clears es = true -> sl_while es = true -> tf_notifies es = true ->
+  pool_started p = false -> exists lab p', pstep es sh scr p lab = Some p'.
+Proof. exact pool_start_progress. Qed.
+Print Assumptions C05_pool_start_progress.
+
+(* ~EventLoopThreadPool on shapes without reset-on-entry: as long as a thread is left, some thread of
+   the N+1 can step (never only a poll time-out); when it has returned every thread has exited (joined)
+   and its loop is gone *)
+Theorem C05_pool_dtor_terminates : forall es sh scr specs p,
+  preach es sh scr (pinit specs) p -> tf_clears es = true ->
+  resets_on_entry sh = false -> qwake_ok sh = true -> dtor_quits es = true ->
+  forallb user_done p = true -> pool_destroyed p = false ->
+  exists lab p', pstep es sh scr p lab = Some p'.
+Proof. exact pool_dtor_progress. Qed.
+Print Assumptions C05_pool_dtor_terminates.
+
+Theorem C05_pool_dtor_joins_all : forall es sh scr specs p,
+  (forall t, qfree_acts (scr t) = true) -> specs_qfree specs ->
+  tf_clears es = true -> sl_while es = true -> dtor_quits es = true -> dtor_joins es = true ->
+  preach es sh scr (pinit specs) p ->
+  forall i e, nth_error p i = Some e -> eo e = ODone -> ec e = CExited /\ alive e = false.
+Proof. exact pool_all_joined. Qed.
+Print Assumptions C05_pool_dtor_joins_all.
+
+(* the current tree satisfies every shape hypothesis of the pool theorems *)
+Theorem C05_pool_current_tree :
+  tf_clears gen_eshape = true /\ sl_while gen_eshape = true /\ tf_notifies gen_eshape = true /\
+  dtor_quits gen_eshape = true /\ dtor_joins gen_eshape = true /\ qwake_ok Gen_C04.gen_shape = true /\
+  resets_on_entry Gen_C04.gen_shape = C05_current_tree_has_F3.
+Proof. rewrite C05_gen_thread_is_model. repeat split. Qed.
+Print Assumptions C05_pool_current_tree.
+
 (* ------------------------------------------------------------ non-vacuity *)
 Example C05_shapes_inhabited :
   resets_on_entry fixed_shape = false /\ resets_on_entry repaired_shape = false /\ resets_on_entry pinned_shape = true /\
   qwake_ok fixed_shape = true /\ sl_while pinned_eshape = true /\ tf_notifies pinned_eshape = true /\
   dtor_quits pinned_eshape = true /\ tf_clears pinned_eshape = true /\ tf_clears noclear_eshape = false.
 Proof. vm_compute. repeat split. Qed.
+
+(* a cost assignment exists for scripts with a self-re-queueing task and a nested inline runInLoop *)
+Definition ex_cost_scr : scripts := fun t => match t with 1 => [AQueue 1; ARun 2] | 2 => [AQueue 3] | _ => [] end.
+Example C05_costs_inhabited :
+  costs_ok ex_cost_scr (fun t => match t with 1 => 5 | 2 => 2 | _ => 0 end)
+                       (fun t => match t with 1 => 12 | 2 => 3 | _ => 0 end).
+Proof. split; intros [|[|[|t]]]; cbn; lia. Qed.
 
 (* quit() before loop() on the fixed tree: loop() returns at its first while test, quit_ is then clear *)
 Example C05_example_quit_before_loop :
@@ -298,6 +377,18 @@ Example C05_example_thread_life :
             eo e = ODone /\ ec e = CExited /\ uaf_dtor e = false /\ uaf_user e = false /\
             execq (log (sg (ls e))) = [1] /\ got e = Some true.
 Proof. eexists. split; [vm_compute; reflexivity|]. vm_compute. repeat split. Qed.
+
+(* a pool of three threads on the fixed tree under a deterministic schedule: started, used, destroyed;
+   every thread joined, nothing touched after destruction *)
+Definition ex_pool_order : list plabel := [PO 0; PO 1; PO 2; PC 0; PCRead 0; PC 1; PCRead 1; PC 2; PCRead 2].
+Example C05_example_pool_life :
+  let p := pauto pinned_eshape fixed_shape no_scripts ex_pool_order 400
+                 (pinit [([], [AQueue 1]); ([], []); ([], [AQueue 2; AQueue 3])]) in
+  preach pinned_eshape fixed_shape no_scripts (pinit [([], [AQueue 1]); ([], []); ([], [AQueue 2; AQueue 3])]) p /\
+  pool_destroyed p = true /\
+  map (fun e => (ec e, got e, uaf_dtor e, uaf_user e)) p =
+    [(CExited, Some true, false, false); (CExited, Some true, false, false); (CExited, Some true, false, false)].
+Proof. cbv zeta. split; [apply pauto_preach; constructor|]. vm_compute. split; reflexivity. Qed.
 
 Example C05_example_pool :
   fst (gen_pool_run 3 0 [PNext; PNext; PHash 7; PNext; PNext; PHash 7; PHash 9]) =
